@@ -237,6 +237,23 @@ impl FailSafe {
         // response can complete.
         sessions.remove_pase(expire_sess_id);
 
+        // A fabric that the rollback removed is gone for good - and so must be every
+        // session that was established on it in the meantime (a commissioner opens its
+        // first CASE session *before* `CommissioningComplete`): such a session would
+        // otherwise stay usable, and - as fabric indices are re-used - end up attached to
+        // whatever fabric is commissioned next. The session the trigger arrived over is
+        // only marked as expired, so that the response can still be sent.
+        if let Some(fab_idx) = removed_fabric {
+            let expire_sess_id = expire_sess_id.filter(|sess_id| {
+                sessions
+                    .get(*sess_id)
+                    .map(|sess| sess.get_local_fabric_idx() == fab_idx.get())
+                    .unwrap_or(false)
+            });
+
+            sessions.remove_for_fabric(fab_idx, expire_sess_id);
+        }
+
         self.state = State::Idle;
         self.breadcrumb = 0;
 
